@@ -31,6 +31,14 @@ func (k Keeper) JoinPoolNoSwap(
 			err = fmt.Errorf("function JoinPoolNoSwap failed due to internal reason: %v", r)
 		}
 	}()
+	// each denom may be named once: two coins of one denom would be taken for two assets of the pool by the ratio join
+	for i := range tokenInMaxs {
+		for j := i + 1; j < len(tokenInMaxs); j++ {
+			if tokenInMaxs[i].Denom == tokenInMaxs[j].Denom {
+				return nil, sdkmath.ZeroInt(), errorsmod.Wrapf(types.ErrInvalidMathApprox, "duplicate denom %s in token in maxs", tokenInMaxs[i].Denom)
+			}
+		}
+	}
 	// all pools handled within this method are pointer references, `JoinPool` directly updates the pools
 	pool, poolExists := k.GetPool(ctx, poolId)
 	if !poolExists {
